@@ -216,49 +216,67 @@ Fixpoint tx_put_all (t : txstate) (b k : bytes) (vs : list bytes) (flag ts ds : 
               end
   end.
 
-(** state threaded through the write loop of Commit *)
-Record cstate := mkC {
-  c_disk : disk; c_maxfid : N; c_woff : N; c_asize : N;
-  c_kv : list (bytes * kvidx); c_comm : list N
-}.
+Definition set_tx_done (w : world) : world :=
+  mkW (w_opts w) (w_closed w) (w_disk w) (w_maxfid w) (w_woff w) (w_asize w) (w_ix w) (w_committed w) TxDone.
 
-Fixpoint commit_loop (seg : N) (st : cstate) (pend : list entry) : cstate * bool :=
+(** state threaded through the write loop of Commit *)
+Record cstate := mkC { c_disk : disk; c_maxfid : N; c_woff : N; c_asize : N }.
+
+(** one iteration of the write loop: rotate when the record does not fit,
+    append it (the last record of the transaction carries the commit marker).
+    Returns the new state and where the record went. *)
+Definition commit_write (seg : N) (st : cstate) (e : entry) (last : bool) : cstate * (N * N * entry) :=
+  let sz := entry_size e in
+  let st1 :=
+    if seg <? c_asize st + sz
+    then mkC (disk_create (c_disk st) (c_maxfid st + 1)) (c_maxfid st + 1) 0 0
+    else st in
+  let e' := if last then with_status e St_Committed else e in
+  let pos := c_woff st1 in
+  (mkC (disk_append (c_disk st1) (c_maxfid st1) pos e') (c_maxfid st1) (pos + sz) (c_asize st1 + sz),
+   (c_maxfid st1, pos, e')).
+
+(** [mark] = the list ends with the last record of the transaction *)
+Fixpoint commit_loop (seg : N) (mark : bool) (st : cstate) (pend : list entry) : cstate * list (N * N * entry) :=
   match pend with
-  | [] => (st, true)
+  | [] => (st, [])
   | e :: rest =>
-      let last := match rest with [] => true | _ => false end in
-      let sz := entry_size e in
-      if seg <? sz then (st, false)                      (* ErrKeyAndValSize *)
-      else
-        let st1 :=
-          if seg <? c_asize st + sz
-          then mkC (disk_create (c_disk st) (c_maxfid st + 1)) (c_maxfid st + 1) 0 0 (c_kv st) (c_comm st)
-          else st in
-        let e' := if last then with_status e St_Committed else e in
-        let pos := c_woff st1 in
-        let d2 := disk_append (c_disk st1) (c_maxfid st1) pos e' in
-        let comm2 := if last then e_txid e :: c_comm st1 else c_comm st1 in
-        let kv2 := if e_ds e =? DS_KV then apply_kv (c_kv st1) e' (c_maxfid st1) pos else c_kv st1 in
-        commit_loop seg (mkC d2 (c_maxfid st1) (pos + sz) (c_asize st1 + sz) kv2 comm2) rest
+      let '(st1, r) := commit_write seg st e (mark && match rest with [] => true | _ => false end) in
+      let '(st2, rs) := commit_loop seg mark st1 rest in
+      (st2, r :: rs)
   end.
 
-(** Tx.Commit on an active transaction: new world and success flag *)
-Definition do_commit (w : world) (t : txstate) : world * bool :=
+Definition set_disk (w : world) (st : cstate) (ix : indexes) (comm : list N) (x : txs) : world :=
+  mkW (w_opts w) (w_closed w) (c_disk st) (c_maxfid st) (c_woff st) (c_asize st) ix comm x.
+
+(** index updates of a committed transaction: first the key/value records
+    (in write order), then buildIdxes for the other structures *)
+Definition commit_index (ix : indexes) (written : list (N * N * entry)) : indexes :=
+  let kv := fold_left (fun kv r => let '(fid, pos, e) := r in
+                                   if e_ds e =? DS_KV then apply_kv kv e fid pos else kv) written (ix_kv ix) in
+  fold_left (fun ix r => apply_ds false ix (snd r)) written (mkIx kv (ix_list ix) (ix_set ix) (ix_zset ix)).
+
+(** Tx.Commit on an active transaction (after fix d75ae6f): an oversized entry
+    rejects the transaction before anything is written.
+    [fault] = Some k models an I/O error reported by the k-th write (0-based):
+    the records before it are on disk, nothing is indexed. *)
+Definition do_commit (fault : option nat) (w : world) (t : txstate) : world * bool :=
   match tx_pend t with
-  | [] => (mkW (w_opts w) (w_closed w) (w_disk w) (w_maxfid w) (w_woff w) (w_asize w) (w_ix w)
-               (w_committed w) TxDone, true)
+  | [] => (set_tx_done w, true)
   | pend =>
-      let st0 := mkC (w_disk w) (w_maxfid w) (w_woff w) (w_asize w) (ix_kv (w_ix w)) (w_committed w) in
-      let '(st, ok) := commit_loop (o_seg (w_opts w)) st0 pend in
-      let ix1 := mkIx (c_kv st) (ix_list (w_ix w)) (ix_set (w_ix w)) (ix_zset (w_ix w)) in
-      if ok then
-        let ix2 := fold_left (apply_ds false) pend ix1 in
-        (mkW (w_opts w) (w_closed w) (c_disk st) (c_maxfid st) (c_woff st) (c_asize st) ix2 (c_comm st) TxDone, true)
+      let seg := o_seg (w_opts w) in
+      if existsb (fun e => seg <? entry_size e) pend then (w, false)
       else
-        (* the error is returned from inside the loop: records written so far
-           stay on disk and in the key/value index; the transaction is still open *)
-        (mkW (w_opts w) (w_closed w) (c_disk st) (c_maxfid st) (c_woff st) (c_asize st) ix1 (c_comm st)
-             (TxActive t), false)
+        let st0 := mkC (w_disk w) (w_maxfid w) (w_woff w) (w_asize w) in
+        match fault with
+        | Some k =>
+            let '(st, _) := commit_loop seg false st0 (firstn k pend) in
+            (* the records written before the error carry no marker *)
+            (set_disk w st (w_ix w) (w_committed w) (TxActive t), false)
+        | None =>
+            let '(st, written) := commit_loop seg true st0 pend in
+            (set_disk w st (commit_index (w_ix w) written) (tx_id t :: w_committed w) TxDone, true)
+        end
   end.
 
 (** ---------- API calls inside a transaction ---------- *)
@@ -339,11 +357,90 @@ Definition set_w_ix (w : world) (ix : indexes) : world :=
 Definition lres_val (r : lres bytes) : res := match r with LOk v => RVal v | LErr => RErr end.
 Definition opt_list (o : option (list bytes)) : res := match o with Some l => RList l | None => RErr end.
 
+(** the read-only list / set / sorted-set calls: a function of the structure
+    indexes alone (shared with the L0 specification, Spec.v) *)
+Definition ds_read (ix : indexes) (o : op) : option res :=
+  match o with
+  | ORPeek b k => Some match alookup (ix_list ix) b with None => RErr | Some l => lres_val (l_rpeek l k) end
+  | OLPeek b k => Some match alookup (ix_list ix) b with None => RErr | Some l => lres_val (l_lpeek l k) end
+  | OLSize b k =>
+      Some match alookup (ix_list ix) b with
+           | None => RErr
+           | Some l => match l_size l k with LOk n => RInt n | LErr => RErr end
+           end
+  | OLRange b k s e =>
+      Some match alookup (ix_list ix) b with
+           | None => RErr
+           | Some l => match l_lrange l k s e with LOk x => RList x | LErr => RErr end
+           end
+  | OSAreMembers b k items =>
+      Some match alookup (ix_set ix) b with
+           | None => RErr
+           | Some s => if s_aremembers s k items then RBool true else RErr
+           end
+  | OSIsMember b k x =>
+      Some match alookup (ix_set ix) b with
+           | None => RErr
+           | Some s => if s_ismember s k x then RBool true else RErr
+           end
+  | OSMembers b k => Some match alookup (ix_set ix) b with None => RErr | Some s => opt_list (s_members s k) end
+  | OSHasKey b k => Some match alookup (ix_set ix) b with None => RErr | Some s => RBool (s_haskey s k) end
+  | OSCard b k => Some match alookup (ix_set ix) b with None => RErr | Some s => RInt (s_card s k) end
+  | OSDiff1 b k1 k2 => Some match alookup (ix_set ix) b with None => RErr | Some s => opt_list (s_diff s k1 k2) end
+  | OSDiff2 b1 k1 b2 k2 =>
+      Some match alookup (ix_set ix) b1, alookup (ix_set ix) b2 with
+           | Some s1, Some s2 => RList (bsort (sdiff_l (getdef s1 k1 []) (getdef s2 k2 [])))
+           | _, _ => RErr
+           end
+  | OSUnion1 b k1 k2 => Some match alookup (ix_set ix) b with None => RErr | Some s => opt_list (s_union s k1 k2) end
+  | OSUnion2 b1 k1 b2 k2 =>
+      Some match alookup (ix_set ix) b1, alookup (ix_set ix) b2 with
+           | Some s1, Some s2 =>
+               match alookup s1 k1, alookup s2 k2 with
+               | Some a, Some c => RList (bsort (sunion_l a c))
+               | _, _ => RErr
+               end
+           | _, _ => RErr
+           end
+  | OZMembers b => Some match alookup (ix_zset ix) b with None => RErr | Some z => RNodes z end
+  | OZCard b => Some match alookup (ix_zset ix) b with None => RErr | Some z => RInt (zlen z) end
+  | OZCount b s e lim exs exe =>
+      Some match alookup (ix_zset ix) b with
+           | None => RErr
+           | Some z => RInt (zlen (z_scorerange z s e lim exs exe))
+           end
+  | OZPeekMax b => Some match alookup (ix_zset ix) b with None => RErr | Some z => RNode (z_peekmax z) end
+  | OZPeekMin b => Some match alookup (ix_zset ix) b with None => RErr | Some z => RNode (z_peekmin z) end
+  | OZRangeByScore b s e lim exs exe =>
+      Some match alookup (ix_zset ix) b with
+           | None => RErr
+           | Some z => RNodes (z_scorerange z s e lim exs exe)
+           end
+  | OZRangeByRank b s e =>
+      Some match alookup (ix_zset ix) b with None => RErr | Some z => RNodes (fst (z_rankrange z s e)) end
+  | OZRank b k => Some match alookup (ix_zset ix) b with None => RErr | Some z => RInt (z_rank z k) end
+  | OZRevRank b k => Some match alookup (ix_zset ix) b with None => RErr | Some z => RInt (z_revrank z k) end
+  | OZScore b k =>
+      Some match alookup (ix_zset ix) b with
+           | None => RErr
+           | Some z => match z_find z k with Some n => RInt (z_score n) | None => RErr end
+           end
+  | OZGetByKey b k =>
+      Some match alookup (ix_zset ix) b with
+           | None => RErr
+           | Some z => match z_find z k with Some n => RNode (Some n) | None => RErr end
+           end
+  | _ => None
+  end.
+
 (** one API call on an active transaction *)
 Definition do_op (now : N) (w : world) (t : txstate) (o : op) : world * txstate * res :=
   let ix := w_ix w in
   let ret (r : res) := (w, t, r) in
   let retp (p : txstate * res) := (w, fst p, snd p) in
+  match ds_read ix o with
+  | Some r => ret r
+  | None =>
   match o with
   | OPut b k v ttl ts => retp (tx_put t b k v ttl F_Set ts DS_KV)
   | ODelete b k => retp (tx_put t b k [] 0 F_Del now DS_KV)
@@ -394,8 +491,6 @@ Definition do_op (now : N) (w : world) (t : txstate) (o : op) : world * txstate 
   (* ---- lists ---- *)
   | ORPush b k vs => if contains_sep k then ret RErr else retp (tx_put_all t b k vs F_RPush now DS_List)
   | OLPush b k vs => if contains_sep k then ret RErr else retp (tx_put_all t b k vs F_LPush now DS_List)
-  | ORPeek b k => match alookup (ix_list ix) b with None => ret RErr | Some l => ret (lres_val (l_rpeek l k)) end
-  | OLPeek b k => match alookup (ix_list ix) b with None => ret RErr | Some l => ret (lres_val (l_lpeek l k)) end
   | ORPop b k =>
       match alookup (ix_list ix) b with
       | None => ret RErr
@@ -417,16 +512,6 @@ Definition do_op (now : N) (w : world) (t : txstate) (o : op) : world * txstate 
                              | (t', r) => (w, t', r)
                              end
                   end
-      end
-  | OLSize b k =>
-      match alookup (ix_list ix) b with
-      | None => ret RErr
-      | Some l => match l_size l k with LOk n => ret (RInt n) | LErr => ret RErr end
-      end
-  | OLRange b k s e =>
-      match alookup (ix_list ix) b with
-      | None => ret RErr
-      | Some l => match l_lrange l k s e with LOk x => ret (RList x) | LErr => ret RErr end
       end
   | OLRem b k count v =>
       match alookup (ix_list ix) b with
@@ -472,20 +557,6 @@ Definition do_op (now : N) (w : world) (t : txstate) (o : op) : world * txstate 
   (* ---- sets ---- *)
   | OSAdd b k items => retp (tx_put_all t b k items F_Set now DS_Set)
   | OSRem b k items => retp (tx_put_all t b k items F_Del now DS_Set)
-  | OSAreMembers b k items =>
-      match alookup (ix_set ix) b with
-      | None => ret RErr
-      | Some s => if s_aremembers s k items then ret (RBool true) else ret RErr
-      end
-  | OSIsMember b k x =>
-      match alookup (ix_set ix) b with
-      | None => ret RErr
-      | Some s => if s_ismember s k x then ret (RBool true) else ret RErr
-      end
-  | OSMembers b k =>
-      match alookup (ix_set ix) b with None => ret RErr | Some s => ret (opt_list (s_members s k)) end
-  | OSHasKey b k =>
-      match alookup (ix_set ix) b with None => ret RErr | Some s => ret (RBool (s_haskey s k)) end
   | OSPop b k choice =>
       match alookup (ix_set ix) b with
       | None => ret RErr
@@ -510,60 +581,39 @@ Definition do_op (now : N) (w : world) (t : txstate) (o : op) : world * txstate 
               end
           end
       end
-  | OSCard b k =>
-      match alookup (ix_set ix) b with None => ret RErr | Some s => ret (RInt (s_card s k)) end
-  | OSDiff1 b k1 k2 =>
-      match alookup (ix_set ix) b with None => ret RErr | Some s => ret (opt_list (s_diff s k1 k2)) end
-  | OSDiff2 b1 k1 b2 k2 =>
-      match alookup (ix_set ix) b1, alookup (ix_set ix) b2 with
-      | Some s1, Some s2 => ret (RList (bsort (sdiff_l (getdef s1 k1 []) (getdef s2 k2 []))))
-      | _, _ => ret RErr
-      end
   | OSMove1 b k1 k2 x =>
       match alookup (ix_set ix) b with
       | None => ret RErr
-      | Some s => let '(s', ok) := s_move s k1 k2 x in
-                  if ok then (set_w_ix w (set_ix_set ix (aset (ix_set ix) b s')), t, RBool true)
-                  else ret RErr
+      | Some s =>
+          if s_haskey s k1 && s_haskey s k2 then
+            (* Tx.sMove (fix ba1e448): add to the destination, remove from the source *)
+            match tx_put t b k2 x 0 F_Set now DS_Set with
+            | (t1, ROk) => match tx_put t1 b k1 x 0 F_Del now DS_Set with
+                           | (t2, ROk) => (w, t2, RBool true)
+                           | (t2, r) => (w, t2, r)
+                           end
+            | (t1, r) => (w, t1, r)
+            end
+          else ret RErr
       end
   | OSMove2 b1 k1 b2 k2 x =>
       match alookup (ix_set ix) b1, alookup (ix_set ix) b2 with
       | Some s1, Some s2 =>
           if s_haskey s1 k1 && s_haskey s2 k2 then
-            (* set2.SAdd(key2,item) when absent, then set1.SRem(key1,item) — on
-               the same object when bucket1 = bucket2 *)
-            let sets1 := if bmem x (getdef s2 k2 []) then ix_set ix
-                         else aset (ix_set ix) b2 (s_sadd s2 k2 [x]) in
-            let s1' := getdef sets1 b1 [] in
-            let sets2 := aset sets1 b1 (fst (s_srem s1' k1 [x])) in
-            (set_w_ix w (set_ix_set ix sets2), t, RBool true)
+            match tx_put t b2 k2 x 0 F_Set now DS_Set with
+            | (t1, ROk) => match tx_put t1 b1 k1 x 0 F_Del now DS_Set with
+                           | (t2, ROk) => (w, t2, RBool true)
+                           | (t2, r) => (w, t2, r)
+                           end
+            | (t1, r) => (w, t1, r)
+            end
           else ret RErr
-      | _, _ => ret RErr
-      end
-  | OSUnion1 b k1 k2 =>
-      match alookup (ix_set ix) b with None => ret RErr | Some s => ret (opt_list (s_union s k1 k2)) end
-  | OSUnion2 b1 k1 b2 k2 =>
-      match alookup (ix_set ix) b1, alookup (ix_set ix) b2 with
-      | Some s1, Some s2 =>
-          match alookup s1 k1, alookup s2 k2 with
-          | Some a, Some c => ret (RList (bsort (sunion_l a c)))
-          | _, _ => ret RErr
-          end
       | _, _ => ret RErr
       end
   (* ---- sorted sets ---- *)
   | OZAdd b k sc v =>
       if contains_sep k then ret RErr
       else retp (tx_put t b (join_sep k (print_Z sc)) v 0 F_ZAdd now DS_ZSet)
-  | OZMembers b => match alookup (ix_zset ix) b with None => ret RErr | Some z => ret (RNodes z) end
-  | OZCard b => match alookup (ix_zset ix) b with None => ret RErr | Some z => ret (RInt (zlen z)) end
-  | OZCount b s e lim exs exe =>
-      match alookup (ix_zset ix) b with
-      | None => ret RErr
-      | Some z => ret (RInt (zlen (z_scorerange z s e lim exs exe)))
-      end
-  | OZPeekMax b => match alookup (ix_zset ix) b with None => ret RErr | Some z => ret (RNode (z_peekmax z)) end
-  | OZPeekMin b => match alookup (ix_zset ix) b with None => ret RErr | Some z => ret (RNode (z_peekmin z)) end
   | OZPopMax b =>
       match alookup (ix_zset ix) b with
       | None => ret RErr
@@ -580,16 +630,6 @@ Definition do_op (now : N) (w : world) (t : txstate) (o : op) : world * txstate 
                   | (t', r) => (w, t', r)
                   end
       end
-  | OZRangeByScore b s e lim exs exe =>
-      match alookup (ix_zset ix) b with
-      | None => ret RErr
-      | Some z => ret (RNodes (z_scorerange z s e lim exs exe))
-      end
-  | OZRangeByRank b s e =>
-      match alookup (ix_zset ix) b with
-      | None => ret RErr
-      | Some z => ret (RNodes (fst (z_rankrange z s e)))
-      end
   | OZRem b k =>
       match alookup (ix_zset ix) b with
       | None => ret RErr
@@ -600,18 +640,8 @@ Definition do_op (now : N) (w : world) (t : txstate) (o : op) : world * txstate 
       | None => ret RErr
       | Some _ => retp (tx_put t b (print_Z s) (print_Z e) 0 F_ZRemRange now DS_ZSet)
       end
-  | OZRank b k => match alookup (ix_zset ix) b with None => ret RErr | Some z => ret (RInt (z_rank z k)) end
-  | OZRevRank b k => match alookup (ix_zset ix) b with None => ret RErr | Some z => ret (RInt (z_revrank z k)) end
-  | OZScore b k =>
-      match alookup (ix_zset ix) b with
-      | None => ret RErr
-      | Some z => match z_find z k with Some n => ret (RInt (z_score n)) | None => ret RErr end
-      end
-  | OZGetByKey b k =>
-      match alookup (ix_zset ix) b with
-      | None => ret RErr
-      | Some z => match z_find z k with Some n => ret (RNode (Some n)) | None => ret RErr end
-      end
+  | _ => ret RErr   (* read-only structure calls are answered by ds_read above *)
+  end
   end.
 
 (** ---------- top-level calls ---------- *)
@@ -641,7 +671,7 @@ Definition step (now : N) (w : world) (c : call) : world * res :=
       end
   | CCommit =>
       match w_tx w with
-      | TxActive t => let '(w', ok) := do_commit w t in (w', if ok then ROk else RErr)
+      | TxActive t => let '(w', ok) := do_commit None w t in (w', if ok then ROk else RErr)
       | _ => (w, RErr)
       end
   | CRollback =>
